@@ -176,7 +176,7 @@ class C15(Prop):
             if exp != ob["sel"] and not ties:
                 fails.append(("different", f"{case['kind']}: original run returns {oa['sel']} (renamed: {exp}), "
                                            f"re-encoded run returns {ob['sel']}"))
-        for f in case["must"]:
+        for f in (case["must"] if oa["err"] is None else []):  # a raised error is C14's business
             d = type_of(case["a"], f)
             sel = oa["sel"] or []
             if f in sel:
